@@ -35,7 +35,7 @@ def Cfg.fixed : Cfg := { mintReceived := true, skipZeroDelegate := true, tallySk
 
 /-- THE ONE-LINE SWITCH: the configuration of the code in /repo (used by the driver).
     After a `fix:` commit set the corresponding field to `true`. -/
-def cfg : Cfg := { mintReceived := false, skipZeroDelegate := false, tallySkipUnbonded := false }
+def cfg : Cfg := { mintReceived := true, skipZeroDelegate := true, tallySkipUnbonded := true }
 
 inductive Status where
   | unbonded | unbonding | bonded
@@ -141,12 +141,22 @@ def validateUnbondAmount (c : VSt) (d : Addr) (amt : Int) : Option Dec :=
           else if delShares.m < shares.m then some delShares   -- the cap
           else some shares
 
-/-- `Unbond`: remove `sh` shares of delegator `d`, return the token amount.  Hooks are not modelled. -/
+/-- The only way a hook touches the modelled behaviour: x/distribution's `BeforeDelegationSharesModified`
+    (called by `Unbond` and by `Delegate` for an *existing* delegation) withdraws the delegator's rewards and
+    computes `validator.TokensFromShares(delegation.Shares)`, i.e. divides by the validator's delegator shares.
+    With zero shares — possible only next to a zero-share delegation record (finding F7) — the Go code panics. -/
+def hookPanics (c : VSt) : Bool :=
+  match c.val with
+  | some v => decide (v.shares.m = 0)
+  | none => false
+
+/-- `Unbond`: remove `sh` shares of delegator `d`, return the token amount.  Hooks: see `hookPanics`. -/
 def unbond (c : VSt) (d : Addr) (sh : Dec) : Res (VSt × Int) :=
   match c.del d with
   | none => .err
   | some delShares =>
-    if delShares.m < sh.m then .err
+    if hookPanics c then .panic
+    else if delShares.m < sh.m then .err
     else
       match c.val with
       | none => .err
@@ -169,6 +179,7 @@ def delegate (c : VSt) (d : Addr) (amt : Int) : Res (VSt × Dec) :=
   | none => .err
   | some v =>
     if v.invalidExRate then .err
+    else if (c.del d).isSome ∧ hookPanics c then .panic
     else
       match v.addTokensFromDel amt with
       | none => .panic
